@@ -183,7 +183,7 @@ Lemma run_refines lay os : forall m1 m2, meq m1 m2 ->
   /\ meq (snd (comp_run lay m1 os)) (snd (spec_run m2 os)).
 Proof.
   induction os as [|o os IH]; intros m1 m2 H; cbn [comp_run spec_run]; [split; [reflexivity|exact H]|].
-  destruct o as [rs|vs rs]; cbn [comp_step spec_step].
+  destruct o as [rs|vs rs|r|v r|v r]; cbn [comp_step spec_step].
   - destruct (IH m1 m2 H) as [Ho Hm].
     destruct (comp_run lay m1 os) as [[outs log] mf]. destruct (spec_run m2 os) as [souts smf].
     cbn in *. split; [|exact Hm]. rewrite comp_read_spec, (meq_read _ _ _ H). now f_equal.
@@ -192,6 +192,19 @@ Proof.
     destruct (IH _ _ H') as [Ho Hm].
     destruct (comp_run lay (comp_write lay m1 vs rs) os) as [[outs log] mf].
     destruct (spec_run (fold_left write1 (combine vs rs) m2) os) as [souts smf].
+    cbn in *. split; [now f_equal|exact Hm].
+  - destruct (IH m1 m2 H) as [Ho Hm].
+    destruct (comp_run lay m1 os) as [[outs log] mf]. destruct (spec_run m2 os) as [souts smf].
+    cbn in *. split; [|exact Hm]. rewrite (H r). now f_equal.
+  - assert (H' : meq (write1 m1 (v, r)) (write1 m2 (v, r))) by (apply (meq_seq_write [(v, r)]); exact H).
+    destruct (IH _ _ H') as [Ho Hm].
+    destruct (comp_run lay (write1 m1 (v, r)) os) as [[outs log] mf].
+    destruct (spec_run (write1 m2 (v, r)) os) as [souts smf].
+    cbn in *. split; [now f_equal|exact Hm].
+  - assert (H' : meq (write1 m1 (v, r)) (write1 m2 (v, r))) by (apply (meq_seq_write [(v, r)]); exact H).
+    destruct (IH _ _ H') as [Ho Hm].
+    destruct (comp_run lay (write1 m1 (v, r)) os) as [[outs log] mf].
+    destruct (spec_run (write1 m2 (v, r)) os) as [souts smf].
     cbn in *. split; [now f_equal|exact Hm].
 Qed.
 
